@@ -118,8 +118,11 @@ class Crate:
         self.statics = d["statics"]
         self.fns = [Fn(f, self.name) for f in d["fns"]]
         self.by_path = {}
+        self.by_dp = {}
         for f in self.fns:
             self.by_path.setdefault(f.path, []).append(f)
+            if f.d.get("dp"):
+                self.by_dp[f.d["dp"]] = f
 
     def fn(self, path):
         """Exactly one function with this def path, else None."""
